@@ -270,7 +270,8 @@ static void der_replace_fix(const dtree_t *t, const unsigned char *b, size_t ble
 
 /* ---- DER ops per node */
 enum { DOP_LEN0 = 0, DOP_NLEN = 18, DOP_TAG0 = DOP_NLEN, DOP_NTAG = 16, DOP_DEL = DOP_TAG0 + DOP_NTAG, DOP_DUP, DOP_NEST0,
-       DOP_NNEST = 5, DOP_INT0 = DOP_NEST0 + DOP_NNEST, DOP_NINT = 6, DOP_PER_NODE = DOP_INT0 + DOP_NINT };
+       DOP_NNEST = 5, DOP_INT0 = DOP_NEST0 + DOP_NNEST, DOP_NINT = 6, DOP_REP0 = DOP_INT0 + DOP_NINT, DOP_NREP = 8, DOP_PER_NODE = DOP_REP0 + DOP_NREP };
+static const int der_rep_count[DOP_NREP] = { 3, 4, 5, 9, 17, 33, 65, 257 };   /* element repeated that many times: fixed-size tables of 2^k (+1) entries in a parser */
 static const unsigned char der_tag_alphabet[DOP_NTAG] = { 0x02, 0x03, 0x04, 0x05, 0x06, 0x0c, 0x13, 0x16, 0x17, 0x18, 0x30, 0x31, 0xa0, 0xa3, 0x80, 0x82 };
 static const int der_nest_depth[DOP_NNEST] = { 1, 2, 4, 16, 64 };
 static const char *der_len_name[DOP_NLEN] = { "0", "1", "n-1", "n+1", "0x7f", "0x80-indef", "0x81-n", "0x82-n", "0x84-n", "0x82-ffff",
@@ -358,6 +359,23 @@ static int der_mutate(const dtree_t *t, const unsigned char *b, size_t blen, int
         memcpy(rep + c->hl + n, b + c->off, c->hl + n);
         der_replace_fix(t, b, blen, k, rep, 2 * (c->hl + n), out, tmpa, tmpb);
         snprintf(detail, dn, "node=%d tag=%02x off=%u n=%u duplicated", k, c->tag, c->off, c->len);
+        return 1;
+    }
+    if (op >= DOP_REP0)
+    {
+        int cnt = der_rep_count[op - DOP_REP0], i;
+        *cls = "der-repeat";
+        if ((size_t) cnt * (c->hl + n) + 600 > C09_OUTMAX / 2 || c->parent < 0)
+        {
+            return 0;
+        }
+        for (i = 0; i < cnt; i++)
+        {
+            memcpy(rep + o, b + c->off, c->hl + n);
+            o += c->hl + n;
+        }
+        der_replace_fix(t, b, blen, k, rep, o, out, tmpa, tmpb);
+        snprintf(detail, dn, "node=%d tag=%02x off=%u n=%u repeated %d times", k, c->tag, c->off, c->len, cnt);
         return 1;
     }
     if (op < DOP_NEST0 + DOP_NNEST)
